@@ -219,7 +219,8 @@ int flush_pubsub_msgs(void *data, const char *key, void *value) {
         m_mem_unref(mm);
     }
     call_pubsub_cb(mod, flushed);
-    if (poisoned && m_mod_is(mod, M_MOD_RUNNING)) {
+    /* A paused module loses its mailbox here: the pill that was in it still takes effect */
+    if (poisoned && m_mod_is(mod, M_MOD_RUNNING | M_MOD_PAUSED)) {
         M_INFO("PoisonPilling '%s'.\n", mod->name);
         stop(mod, true);
     }
